@@ -26,11 +26,17 @@ CHECKS = {
         "with the fast division -- visits exactly the live blocks, each once, in address order, and the count equals `used` (page_visit_exactly_live, "
         "page_visit_count, page_collect_force_complete, page_live_count, fast_divide_correct). Tie: API traces on the real allocator; at every walk "
         "the visited (address,size) multiset is checked against a shadow table of live blocks and, per page, the visited indices against the model's "
-        "page_visit_blocks on the page state dumped before the walk; page dumps are checked against page_inv_b and the model's transition relation.",
+        "page_visit_blocks on the page state dumped before the walk; page dumps are checked against page_inv_b and the model's transition relation. "
+        "HEAP LAYER (Properties/C12walk.v over Model/Walk.v): mi_heap_visit_blocks with the visitor as an argument (any state machine): the nested loops "
+        "are the flat call sequence cut at the first refusal; `returning false stops the walk` (calls = prefix up to and including the refused call, "
+        "nothing after it), result true => nothing skipped, accepting visitor => per page the area record and exactly the live blocks, area.used = "
+        "number of live blocks without pending remote frees. Tie: harness/t_walk.c runs the real walk with a visitor refusing its k-th call on seeded "
+        "heaps (full pages, holes, pending/drained remote frees, huge pages, empty heaps); ocaml mode walk demands the same call list and result from "
+        "the extracted walk_stop_at on the pages dumped before the walk.",
    note="Trusted: Coq kernel, extraction, OCaml/C drivers, trace generator. Page-level theorem; that mi_heap_visit_pages reaches every page queue "
         "(incl. the full queue) exactly once is checked by the shadow oracle, not proved. mi_abandoned_visit_blocks is not covered by this check "
         "(needs MI_VISIT_ABANDONED; see C09). Single-threaded histories (no pending cross-thread frees, as the property assumes).",
-   technique="Coq proof over page model (invariant by induction) + API-trace differential with shadow oracle",
+   technique="Coq proof over page model (invariant by induction) and heap-walk model with the visitor as an argument + API-trace and walk-call-list differential with shadow oracle",
    design="3/C12"),
  "C01": dict(
    text="Machine-checked proof (Coq) of the layer theorems under the property: the page invariant (three free lists duplicate-free, disjoint, inside "
